@@ -57,18 +57,18 @@ type TraceRec struct {
 }
 
 const (
-	ptraceOTraceSysGood = 0x1
-	ptraceOTraceFork    = 0x2
-	ptraceOTraceVFork   = 0x4
-	ptraceOTraceClone   = 0x8
-	ptraceOExitKill     = 0x100000
+	ptraceOTraceSysGood  = 0x1
+	ptraceOTraceFork     = 0x2
+	ptraceOTraceVFork    = 0x4
+	ptraceOTraceClone    = 0x8
+	ptraceOExitKill      = 0x100000
 	ptraceGetSyscallInfo = 0x420e
-	atFdCwd             = -100
-	oCreat              = 0x40
-	oTrunc              = 0x200
-	oTmpfile            = 0x410000
-	oWronly             = 0x1
-	oRdwr               = 0x2
+	atFdCwd              = -100
+	oCreat               = 0x40
+	oTrunc               = 0x200
+	oTmpfile             = 0x410000
+	oWronly              = 0x1
+	oRdwr                = 0x2
 )
 
 var sysNames = map[uint64]string{
